@@ -4,7 +4,7 @@ import ast
 from ..core import Mutant, norm
 from ..httpx import HC
 from ..absint import Domain, Interp, NORMAL, RETURN, RAISE, is_raise
-from ..astutil import method_call, unparse, parent, in_subtree, is_self_call
+from ..astutil import method_call, unparse, parent, in_subtree, is_self_call, oriented
 from ..index import dotted, walk_local
 
 EXPLANATION = ("C19: self.requests.popleft() occurs only in serviceRequests under `not self.waited`; transmit sets waited "
@@ -164,10 +164,11 @@ def check(run):
         # the new scheme is whichever local is bound from `<urlsplit result>.scheme`
         newscheme = {n.targets[0].id for n in walk_local(rd.node) if isinstance(n, ast.Assign) and isinstance(n.targets[0], ast.Name)
                      and isinstance(n.value, ast.Attribute) and n.value.attr == "scheme" and not (dotted(n.value) or "").startswith("self.")}
-        cmps = [c for c in ast.walk(r.test) if isinstance(c, ast.Compare) and len(c.ops) == 1 and getattr(c.comparators[0], "value", None) == "https"]
+        cmps = [o for o in (oriented(c, lambda e: dotted(e) is not None) for c in ast.walk(r.test) if isinstance(c, ast.Compare))
+                if o and getattr(o[2], "value", None) == "https"]
         ok = isinstance(r.test, ast.BoolOp) and isinstance(r.test.op, ast.And) \
-            and any(dotted(c.left) == "self.requester.scheme" and isinstance(c.ops[0], ast.Eq) for c in cmps) \
-            and any(dotted(c.left) in newscheme and isinstance(c.ops[0], ast.NotEq) for c in cmps)
+            and any(dotted(l) == "self.requester.scheme" and op == "Eq" for l, op, rr in cmps) \
+            and any(dotted(l) in newscheme and op == "NotEq" for l, op, rr in cmps)
         closes = [n for n in walk_local(rd.node) if isinstance(n, ast.Call) and method_call(n) == ("self.connector", "close")]
         newc = [n for n in walk_local(rd.node) if isinstance(n, ast.Call) and (dotted(n.func) or "").endswith("tcp.Client")]
         ok = ok and all(c.lineno > r.end_lineno for c in closes + newc) and bool(closes) and bool(newc)
